@@ -29,6 +29,12 @@ CHECKS = {
  "C13": dict(cat="exploration", ref="DESIGN.md §6 C13",
    technique="degenerate deterministic simulation (one SyncTestSession, no network, no clock): seeded configurations and inputs, injected fault = a game step whose result differs between simulations of one frame; oracle = exact detection window and first affected frame",
    text="Seeded SyncTest configurations (players 1-4, window 1-12, check distance, delay 0-6, 30-400 frames): valid ones run with a deterministic harness game and must never report a mismatch, must hand out only Confirmed inputs equal to the delayed submissions and must obey the request-list automaton; half of them get a nondeterministic step injected at a seeded frame and must report MismatchedChecksum within check_distance+2 frames naming the first affected frame and not before the frame was simulated twice; invalid configurations (check distance >= window, sparse saving) must be rejected with InvalidRequest. The simulator degenerates here (no schedule, no network) and DESIGN.md says so."),
+ "C07": dict(cat="exploration", ref="DESIGN.md §6 C07",
+   technique="deterministic simulation with fault injection: node death / API disconnect at seeded instants with exact virtual timestamps; oracle = two-timer reference model compared poll by poll + timeline check against the accessor's (disconnected, last_frame)",
+   text="Two-peer sessions (1-2 players per side, optional spectator on the survivor, rollback and lockstep, all window/delay/sparse settings, timeouts 300-3000 ms) in which the remote stops at a seeded instant - during the handshake, at frame 0, while the survivor is paused, with some of its last packets lost - or is disconnected through disconnect_player. NetworkInterrupted and Disconnected must appear in exactly the poll the timer model predicts from the last accepted packet, once; the survivor must keep advancing; every frame up to the last one received from the victim keeps the real inputs and every later frame is re-simulated with (default, Disconnected); the survivor's spectator must be handed the same."),
+ "C12": dict(cat="exploration", ref="DESIGN.md §6 C12",
+   technique="deterministic simulation with fault injection: handshake packets lost/duplicated/reordered/delayed and forged replies under seeded poll cadences; oracles = per-address event grammar automaton, handshake accounting model, timer model, queue bound via accessor",
+   text="Handshake stress (loss to 40 %, duplication to 20 %, 0-300 ms latency with full jitter, poll periods 1-400 ms, stray SyncReplies with never-sent nonces, never-drained sessions), silences within 200 ms of the notify delay and of the timeout, and 60-second quiet pairs. Per remote address the drained events must follow Synchronizing 1..4, Synchronized, (Interrupted Resumed)*, [Interrupted], [Disconnected]; Synchronized must come exactly with the fifth reply that matches a request really sent to that address; Running iff every address is through; advance_frame says NotSynchronized iff not Running; timers fire in the poll the model predicts; the event queue never exceeds 100."),
 }
 NOT_YET = "not claimed at this commit: the check for this property is still under construction (see DESIGN.md §6 for the planned check)"
 NA = {
